@@ -5,9 +5,26 @@
    are in Proof/Pool.v, Proof/PoolThm.v.  `reachable max st` quantifies over ALL event lists: any
    interleaving of any number of callers, connections, requests, cancellations, deaths and Close. *)
 From Coq Require Import ZArith List Bool.
-From TD Require Import Gen.PoolDecide Model.Pool Proof.PoolTac Proof.Pool Proof.PoolThm.
+From TD Require Import Gen.PoolDecide Model.Pool Proof.PoolTac Proof.Pool Proof.PoolThm Proof.PoolRun.
 Import ListNotations.
 Open Scope Z_scope.
+
+(* What "live connections" means here.  Two readings of the first clause are stated separately:
+   COUNTED  = slots reserved by callers about to create + created connections whose death the pool has not
+              recorded (`counted`); this is what the pool can know, and C27_limit bounds it for ALL runs.
+   RUNNING  = created connections whose Run has not returned (`running`).  A connection whose death was
+              recorded by the mark-dead path of Invoke (retryable error) may still be running, so RUNNING
+              is bounded only under the environment premise `strict_ok` (a connection reports the retryable
+              dead error only after its Run returned): C27_running_partial.  Without the premise the bound
+              fails: C27_running_refuted -- max = 1, two running connections.  The premise is NOT guaranteed
+              by pool.Conn implementations: telegram/internal/manager.Conn surfaces rpc.ErrEngineClosed /
+              ErrConnDead while Run is still unwinding, and pool_test.go's invokeErrConn reports ErrConnDead
+              with Run alive and expects a second connection with MaxOpenConnections = 1
+              (TestDC_InvokeRetryOnDeadConn), so the transient max+1 is behaviour the existing suite fixes:
+              known finding `running-exceeds-max:dead-reported-before-run-exit`.
+   "has died" in the third clause means "death recorded by the pool" (c_dead); a connection whose Run has
+   returned but whose dead() region has not run yet can still be handed out (inherent: the pool learns
+   about a death only through dead()). *)
 
 (* counted-live = total <= max (max < 1 means unlimited, as in the code); the dead() region never
    drives the counter negative (its panic is unreachable). *)
@@ -15,6 +32,27 @@ Theorem C27_limit : forall max st, reachable max st ->
   s_total st = counted st /\ (1 <= max -> s_total st <= max) /\ s_panicked st = false.
 Proof. exact limit. Qed.
 Print Assumptions C27_limit.
+
+(* RUNNING connections, under the environment premise: never more than the counter, hence never more than max *)
+Theorem C27_running_partial : forall max l st, run (init max) l = Some st -> strict_run (init max) l ->
+  running (s_conns st) (s_created st) <= s_total st /\ (1 <= max -> running (s_conns st) (s_created st) <= max).
+Proof. exact running_limit. Qed.
+Print Assumptions C27_running_partial.
+
+(* ... and without the premise the full statement "never more RUNNING connections than max" is refuted:
+   connection 1 reports a retryable dead error while its Run is alive, the holder records its death and
+   creates connection 2 (max = 1, two running connections, counter 1) *)
+Definition C27_running_witness : list event :=
+  [EStart 0; ENew 0 1; ECreate 0 1; EReady 1; ENewReady 0; ECheck 0 true; EInvRet 0 RDead true; EDeadBy 0 1;
+   ENew 0 1; ECreate 0 2].
+Theorem C27_running_refuted :
+  exists st, run (init 1) C27_running_witness = Some st /\ s_total st = 1 /\ running (s_conns st) (s_created st) = 2.
+Proof. eexists. split; [vm_compute; reflexivity|]. split; vm_compute; reflexivity. Qed.
+Print Assumptions C27_running_refuted.
+(* non-vacuity of the premise: the transfer trace below satisfies it *)
+Example C27_strict_nonvacuous : strict_run (init 1) [EStart 0; ENew 0 1; ECreate 0 1; EReady 1; ENewReady 0; ECheck 0 true;
+                                                     ERunExit 1; EInvRet 0 RDead true; EDeadBy 0 1].
+Proof. simpl. repeat split. intros c H. cbv in H. injection H as <-. reflexivity. Qed.
 
 (* one recorded death frees one slot: after the death of c is recorded no dead() region for c is enabled,
    whoever calls dead() (the connection's Run goroutine or a holder whose Invoke failed retryably) *)
